@@ -179,6 +179,8 @@ def run(ctx):
     rng = ctx.rng
     shared_root = getattr(tld.SUFFIX_TRIE, "_SuffixTrie__root", None)
     before = structure_digest(shared_root) if shared_root is not None else None
+    if shared_root is None:
+        ctx.count("shared-trie-digest-compared:not-applicable")
     try:
         rules = list(data.PUBLIC_SUFFIXES) + list(data.PRIVATE_SUFFIXES)
         ref = PSL(rules)
